@@ -541,8 +541,115 @@ def zint(v):
     return v if is_sym(v) else z3.IntVal(v)
 
 
+# ---- bit-vector backed big.Int (//verif:opt big_bv=1) --------------------------------------------
+# A Big may carry bv: a signed two's-complement term of arbitrary width whose value is the integer.
+# Every operation below computes at a width where the mathematical result fits, so no wrap-around
+# is introduced by the model; v (the Int view) is kept as BV2Int(bv) for code that mixes the views.
+BIG_BV_MAXW = 1200
+
+
+def bvmode(ex):
+    return bool(ex.opts.get('big_bv'))
+
+
+def bigobj(ex, st, p):
+    if p is None:
+        raise GoPanic('nil-deref', None, 'big.Int method on nil')
+    b = ex.load(st, p)
+    if not isinstance(b, Big):
+        raise Unsupported('big.Int value expected, got %r' % (b,))
+    return b
+
+
+def big_sbv(b):
+    """signed bit-vector view of a Big, or None"""
+    if b.bv is not None:
+        return b.bv
+    if isinstance(b.v, int):
+        return z3.BitVecVal(b.v, max(b.v.bit_length() + 1, 8))
+    return None
+
+
+def sext(x, w):
+    return x if x.size() == w else z3.SignExt(w - x.size(), x)
+
+
+def mkbig_bv(x):
+    x = z3.simplify(x)
+    if z3.is_bv_value(x):
+        return Big(x.as_signed_long())
+    return Big(z3.BV2Int(x, True), x)
+
+
+def bigset_bv(ex, st, p, x):
+    if p is None:
+        raise GoPanic('nil-deref', None, 'big.Int method on nil')
+    ex.store(st, p, mkbig_bv(x))
+    return p
+
+
+def big_from_ubv(x):
+    """unsigned machine word / byte string -> Big"""
+    return mkbig_bv(z3.ZeroExt(1, x))
+
+
+def bv_abs(x):
+    w = x.size() + 1
+    X = sext(x, w)
+    return z3.If(X < 0, -X, X)     # signed width w, non-negative
+
+
+def bv_pair(ex, st, pa, pb):
+    """both operands as signed BVs (or None if one of them has no BV view / all concrete)"""
+    if not bvmode(ex):
+        return None
+    a, b = bigobj(ex, st, pa), bigobj(ex, st, pb)
+    if isinstance(a.v, int) and isinstance(b.v, int):
+        return None
+    A, B = big_sbv(a), big_sbv(b)
+    if A is None or B is None:
+        return None
+    return A, B
+
+
+def bv_one(ex, st, p):
+    if not bvmode(ex):
+        return None
+    a = bigobj(ex, st, p)
+    if isinstance(a.v, int):
+        return None
+    return a.bv
+
+
 def big_binop(op):
     def f(ex, st, args, ins, fn):
+        pr = bv_pair(ex, st, args[1], args[2])
+        if pr is not None:
+            A, B = pr
+            if op in ('add', 'sub'):
+                w = max(A.size(), B.size()) + 1
+                if w <= BIG_BV_MAXW:
+                    return bigset_bv(ex, st, args[0], sext(A, w) + sext(B, w) if op == 'add' else sext(A, w) - sext(B, w))
+            elif op == 'mul':
+                w = A.size() + B.size()
+                if w <= BIG_BV_MAXW:
+                    return bigset_bv(ex, st, args[0], sext(A, w) * sext(B, w))
+            else:
+                w = max(A.size(), B.size()) + 1
+                X, Y = sext(A, w), sext(B, w)
+                if not ex.branch(st, Y != 0):
+                    raise GoPanic('divide-by-zero', None, 'big.Int division by zero')
+                q = X / Y               # bvsdiv: truncated
+                r = z3.SRem(X, Y)       # sign follows the dividend
+                if op == 'quo':
+                    res = q
+                elif op == 'rem':
+                    res = r
+                elif op == 'div':
+                    res = z3.If(r < 0, z3.If(Y > 0, q - 1, q + 1), q)
+                else:
+                    res = z3.If(r < 0, z3.If(Y > 0, r + Y, r - Y), r)
+                return bigset_bv(ex, st, args[0], res)
         x = bigv(ex, st, args[1])
         y = bigv(ex, st, args[2])
         if isinstance(x, int) and isinstance(y, int):
@@ -607,6 +714,8 @@ for _n, _o in (('Add', 'add'), ('Sub', 'sub'), ('Mul', 'mul'), ('Div', 'div'), (
 @model('math/big.NewInt')
 def m_big_newint(ex, st, args, ins, fn):
     x = args[0]
+    if bvmode(ex) and not isinstance(x, int):
+        return Ptr(ex.new_cell(st, mkbig_bv(x)), ())
     v = x if isinstance(x, int) else z3.BV2Int(x, True)
     return Ptr(ex.new_cell(st, Big(v)), ())
 
@@ -614,6 +723,8 @@ def m_big_newint(ex, st, args, ins, fn):
 @model('(*math/big.Int).SetInt64')
 def m_big_setint64(ex, st, args, ins, fn):
     x = args[1]
+    if bvmode(ex) and not isinstance(x, int):
+        return bigset_bv(ex, st, args[0], x)
     return bigset(ex, st, args[0], x if isinstance(x, int) else z3.BV2Int(x, True))
 
 
@@ -643,21 +754,33 @@ def ubv2int(ex, st, x, depth=3):
 @model('(*math/big.Int).SetUint64')
 def m_big_setuint64(ex, st, args, ins, fn):
     x = args[1]
+    if bvmode(ex) and not isinstance(x, int):
+        return bigset_bv(ex, st, args[0], z3.ZeroExt(1, x))
     return bigset(ex, st, args[0], x if isinstance(x, int) else ubv2int(ex, st, x))
 
 
 @model('(*math/big.Int).Set')
 def m_big_set(ex, st, args, ins, fn):
-    return bigset(ex, st, args[0], bigv(ex, st, args[1]))
+    b = bigobj(ex, st, args[1])
+    if args[0] is None:
+        raise GoPanic('nil-deref', None, 'big.Int method on nil')
+    ex.store(st, args[0], Big(b.v, b.bv))
+    return args[0]
 
 
 @model('(*math/big.Int).Neg')
 def m_big_neg(ex, st, args, ins, fn):
+    X = bv_one(ex, st, args[1])
+    if X is not None:
+        return bigset_bv(ex, st, args[0], -sext(X, X.size() + 1))
     return bigset(ex, st, args[0], -bigv(ex, st, args[1]))
 
 
 @model('(*math/big.Int).Abs')
 def m_big_abs(ex, st, args, ins, fn):
+    X = bv_one(ex, st, args[1])
+    if X is not None:
+        return bigset_bv(ex, st, args[0], bv_abs(X))
     x = bigv(ex, st, args[1])
     return bigset(ex, st, args[0], abs(x) if isinstance(x, int) else z3.If(x >= 0, x, -x))
 
@@ -669,13 +792,25 @@ def cmp_int(a, b):
     return z3.If(A < B, z3.BitVecVal(-1, 64), z3.If(A > B, z3.BitVecVal(1, 64), z3.BitVecVal(0, 64)))
 
 
+def cmp_bv(A, B):
+    w = max(A.size(), B.size())
+    A, B = sext(A, w), sext(B, w)
+    return z3.If(A < B, z3.BitVecVal(-1, 64), z3.If(A > B, z3.BitVecVal(1, 64), z3.BitVecVal(0, 64)))
+
+
 @model('(*math/big.Int).Cmp')
 def m_big_cmp(ex, st, args, ins, fn):
+    pr = bv_pair(ex, st, args[0], args[1])
+    if pr is not None:
+        return cmp_bv(*pr)
     return cmp_int(bigv(ex, st, args[0]), bigv(ex, st, args[1]))
 
 
 @model('(*math/big.Int).CmpAbs')
 def m_big_cmpabs(ex, st, args, ins, fn):
+    pr = bv_pair(ex, st, args[0], args[1])
+    if pr is not None:
+        return cmp_bv(bv_abs(pr[0]), bv_abs(pr[1]))
     a, b = bigv(ex, st, args[0]), bigv(ex, st, args[1])
     a = abs(a) if isinstance(a, int) else z3.If(a >= 0, a, -a)
     b = abs(b) if isinstance(b, int) else z3.If(b >= 0, b, -b)
@@ -684,11 +819,20 @@ def m_big_cmpabs(ex, st, args, ins, fn):
 
 @model('(*math/big.Int).Sign')
 def m_big_sign(ex, st, args, ins, fn):
+    X = bv_one(ex, st, args[0])
+    if X is not None:
+        return cmp_bv(X, z3.BitVecVal(0, X.size()))
     return cmp_int(bigv(ex, st, args[0]), 0)
 
 
 @model('(*math/big.Int).Int64', '(*math/big.Int).Uint64')
 def m_big_int64(ex, st, args, ins, fn):
+    X = bv_one(ex, st, args[0])
+    if X is not None:
+        if fn['short'] == 'Int64':      # low 64 bits of |x|, negated when x < 0 == low 64 bits of x
+            return z3.simplify(z3.Extract(63, 0, sext(X, max(X.size(), 64))))
+        ax = bv_abs(X)
+        return z3.simplify(z3.Extract(63, 0, sext(ax, max(ax.size(), 64))))
     x = bigv(ex, st, args[0])
     signed = fn['short'] == 'Int64'
     if isinstance(x, int):
@@ -699,6 +843,11 @@ def m_big_int64(ex, st, args, ins, fn):
 
 @model('(*math/big.Int).IsInt64')
 def m_big_isint64(ex, st, args, ins, fn):
+    X = bv_one(ex, st, args[0])
+    if X is not None:
+        if X.size() <= 64:
+            return True
+        return z3.And(X >= -(1 << 63), X < (1 << 63))
     x = bigv(ex, st, args[0])
     if isinstance(x, int):
         return -(1 << 63) <= x < (1 << 63)
@@ -707,6 +856,11 @@ def m_big_isint64(ex, st, args, ins, fn):
 
 @model('(*math/big.Int).IsUint64')
 def m_big_isuint64(ex, st, args, ins, fn):
+    X = bv_one(ex, st, args[0])
+    if X is not None:
+        if X.size() <= 65:
+            return X >= 0
+        return z3.And(X >= 0, X < (1 << 64))
     x = bigv(ex, st, args[0])
     if isinstance(x, int):
         return 0 <= x < (1 << 64)
@@ -715,6 +869,14 @@ def m_big_isuint64(ex, st, args, ins, fn):
 
 @model('(*math/big.Int).BitLen')
 def m_big_bitlen(ex, st, args, ins, fn):
+    X = bv_one(ex, st, args[0])
+    if X is not None:
+        ax = bv_abs(X)
+        w = ax.size()
+        r = z3.BitVecVal(w - 1, 64)
+        for k in range(w - 2, -1, -1):
+            r = z3.If(z3.ULT(ax, z3.BitVecVal(1 << k, w)), z3.BitVecVal(k, 64), r)
+        return r
     x = bigv(ex, st, args[0])
     if isinstance(x, int):
         return abs(x).bit_length()
@@ -732,6 +894,9 @@ def m_big_lsh(ex, st, args, ins, fn):
     n = args[2]
     if not isinstance(n, int):
         raise Unsupported('big.Lsh by symbolic amount')
+    X = bv_one(ex, st, args[1])
+    if X is not None and X.size() + n <= BIG_BV_MAXW:
+        return bigset_bv(ex, st, args[0], sext(X, X.size() + n) << n)
     return bigset(ex, st, args[0], x * (1 << n))
 
 
@@ -741,6 +906,9 @@ def m_big_rsh(ex, st, args, ins, fn):
     n = args[2]
     if not isinstance(n, int):
         raise Unsupported('big.Rsh by symbolic amount')
+    X = bv_one(ex, st, args[1])
+    if X is not None:
+        return bigset_bv(ex, st, args[0], X >> min(n, X.size() - 1))   # arithmetic shift (floor)
     if isinstance(x, int):
         return bigset(ex, st, args[0], x >> n)
     return bigset(ex, st, args[0], x / (1 << n))   # floor division, as Go's arithmetic shift
@@ -762,6 +930,9 @@ def m_big_setbytes(ex, st, args, ins, fn):
     el = ex.slice_elems(st, args[1])
     if all(isinstance(e, int) for e in el):
         return bigset(ex, st, args[0], int.from_bytes(bytes(el), 'big'))
+    if bvmode(ex):
+        wide = z3.Concat(*[bv(e, 8) for e in el]) if len(el) > 1 else bv(el[0], 8)
+        return bigset_bv(ex, st, args[0], z3.ZeroExt(1, wide))
     v = z3.IntVal(0)
     for e in el:
         v = v * 256 + z3.BV2Int(bv(e, 8), False)
@@ -776,6 +947,20 @@ def m_big_bytes(ex, st, args, ins, fn):
         b = x.to_bytes((x.bit_length() + 7) // 8, 'big')
         c = ex.new_cell(st, tuple(b))
         return Slice(Ptr(c, ()), 0, len(b), len(b))
+    X = bv_one(ex, st, args[0])
+    if X is not None:
+        ax = bv_abs(X)
+        w = ax.size()
+        nb = (w - 1 + 7) // 8                       # ax < 2^(w-1)
+        axp = z3.ZeroExt(8 * nb + 8 - w, ax)        # width 8*nb+8
+        W = axp.size()
+        conds = [axp == 0] + [z3.And(z3.UGE(axp, z3.BitVecVal(256 ** (L - 1), W)), z3.ULT(axp, z3.BitVecVal(256 ** L, W)))
+                              for L in range(1, nb + 1)]
+        L = ex.choose(st, conds)
+        elems = tuple(z3.simplify(z3.Extract(8 * (L - i) - 1, 8 * (L - i) - 8, axp)) for i in range(L))
+        elems = tuple(e.as_long() if z3.is_bv_value(e) else e for e in elems)
+        c = ex.new_cell(st, elems)
+        return Slice(Ptr(c, ()), 0, L, L)
     # symbolic: case split on the byte length L (0..33), then fresh bytes tied to the value by a
     # linear integer equation (|x| = sum b_i * 256^(L-1-i), leading byte non-zero)
     ax = z3.If(x >= 0, x, -x)
@@ -794,6 +979,43 @@ def m_big_bytes(ex, st, args, ins, fn):
         st.ghost[key] = elems
     c = ex.new_cell(st, elems)
     return Slice(Ptr(c, ()), 0, L, L)
+
+
+@model('github.com/lianxiangcloud/linkchain/libs/math.ReadBits')
+def m_math_readbits(ex, st, args, ins, fn):
+    """ReadBits(x, buf): buf = big-endian low len(buf) bytes of |x| (a loop over big.Int words in the source)"""
+    b = bigobj(ex, st, args[0])
+    buf = args[1]
+    n = buf.len
+    if isinstance(b.v, int):
+        ax = abs(b.v) & ((1 << (8 * n)) - 1)
+        elems = tuple(ax.to_bytes(n, 'big')) if n else ()
+    else:
+        if b.bv is None:
+            raise Unsupported('ReadBits of a symbolic big.Int without a bit-vector view')
+        ax = bv_abs(b.bv)
+        W = max(ax.size(), 8 * n)
+        axp = z3.ZeroExt(W - ax.size(), ax) if W > ax.size() else ax
+        elems = tuple(z3.simplify(z3.Extract(8 * (n - i) - 1, 8 * (n - i) - 8, axp)) for i in range(n))
+        elems = tuple(e.as_long() if z3.is_bv_value(e) else e for e in elems)
+    if n:
+        arr = ex.load(st, buf.base)
+        ex.store(st, buf.base, arr[:buf.off] + tuple(elems) + arr[buf.off + n:])
+    return None
+
+
+@model('(*math/big.Int).Bit')
+def m_big_bit(ex, st, args, ins, fn):
+    b = bigobj(ex, st, args[0])
+    i = args[1]
+    if not isinstance(i, int):
+        raise Unsupported('big.Bit at a symbolic position')
+    if isinstance(b.v, int):
+        return (b.v >> i) & 1
+    if b.bv is None:
+        raise Unsupported('Bit of a symbolic big.Int without a bit-vector view')
+    X = sext(b.bv, max(b.bv.size(), i + 1))
+    return z3.ZeroExt(63, z3.Extract(i, i, X))
 
 
 @model('(*math/big.Int).SetString')
@@ -821,6 +1043,18 @@ def m_big_string(ex, st, args, ins, fn):
 
 @model('(*math/big.Int).And', '(*math/big.Int).Or', '(*math/big.Int).Xor', '(*math/big.Int).Not')
 def m_big_bitop(ex, st, args, ins, fn):
+    op = fn['short']
+    if bvmode(ex):
+        if op == 'Not':
+            X = bv_one(ex, st, args[1])
+            if X is not None:
+                return bigset_bv(ex, st, args[0], ~X)
+        else:
+            pr = bv_pair(ex, st, args[1], args[2])
+            if pr is not None:
+                w = max(pr[0].size(), pr[1].size())
+                A, B = sext(pr[0], w), sext(pr[1], w)
+                return bigset_bv(ex, st, args[0], {'And': A & B, 'Or': A | B, 'Xor': A ^ B}[op])
     x = bigv(ex, st, args[1])
     y = bigv(ex, st, args[2]) if len(args) > 2 else 0
     if isinstance(x, int) and isinstance(y, int):
